@@ -436,8 +436,17 @@ func TestVerifC07(t *testing.T) {
 		base := int64(r.Intn(1000))
 		for i := 0; i < k; i++ {
 			e := stored{isPre: r.Bool(), ts: r.U64() >> uint(r.Intn(40)), cert: r.Bytes(1 + r.Intn(300))}
+			big := r.Intn(12) == 0 // entries around and above 64 KiB: every length prefix of the entry is 3 bytes wide
+			if big {
+				e.cert = r.Bytes([]int{65535, 65536, 65537, 70000, 131072, 200000}[r.Intn(6)])
+				out.Count("class:entry-64KiB-or-more")
+			}
 			for j, n := 0, r.Intn(4); j < n; j++ {
-				e.chain = append(e.chain, r.Bytes(1+r.Intn(200)))
+				if big && r.Bool() {
+					e.chain = append(e.chain, r.Bytes([]int{30000, 65536, 66000}[r.Intn(3)]))
+				} else {
+					e.chain = append(e.chain, r.Bytes(1+r.Intn(200)))
+				}
 			}
 			var chain []ct.ASN1Cert
 			for _, c := range e.chain {
@@ -448,6 +457,9 @@ func TestVerifC07(t *testing.T) {
 			if e.isPre {
 				copy(e.ikh[:], r.Bytes(32))
 				e.preCert = r.Bytes(1 + r.Intn(300))
+				if big && r.Bool() {
+					e.preCert = r.Bytes(65536 + r.Intn(5000))
+				}
 				te.EntryType = ct.PrecertLogEntryType
 				te.PrecertEntry = &ct.PreCert{IssuerKeyHash: e.ikh, TBSCertificate: e.cert}
 				e.ext, err = tls.Marshal(ct.PrecertChainEntry{PreCertificate: ct.ASN1Cert{Data: e.preCert}, CertificateChain: chain})
